@@ -30,6 +30,7 @@ import (
 
 	"github.com/quay/claircore"
 	"github.com/quay/claircore/indexer"
+	"github.com/quay/claircore/internal/wart"
 	"github.com/quay/claircore/libindex"
 	"github.com/quay/claircore/libvuln/updates"
 	"github.com/quay/claircore/verifharness/internal/memstore"
@@ -462,24 +463,28 @@ type realizer struct {
 	inited []*claircore.Layer
 }
 
+// Realize behaves like libindex.FetchProxy.Realize: the layers are realized
+// into NEW claircore.Layer objects built from descriptions of the arguments,
+// and the caller's slice is then pointed at them with wart.CopyLayerPointers
+// (the caller's own objects stay uninitialized). The controller copies them on
+// into manifest.Layers with a second CopyLayerPointers.
 func (r *realizer) Realize(ctx context.Context, ls []*claircore.Layer) error {
 	err, commit := r.w.enter(ctx, 'Z')
 	if err != nil && !commit {
 		return err
 	}
-	for _, l := range ls {
-		if l.Fetched() {
-			continue
-		}
-		desc := claircore.LayerDescription{Digest: l.Hash.String(), URI: l.URI, MediaType: `application/vnd.oci.image.layer.v1.tar`, Headers: map[string][]string{}}
-		if ierr := l.Init(ctx, &desc, bytes.NewReader(layerTar)); ierr != nil {
+	ds := wart.LayersToDescriptions(ls)
+	ret := make([]claircore.Layer, len(ds))
+	for i := range ds {
+		if ierr := ret[i].Init(ctx, &ds[i], bytes.NewReader(layerTar)); ierr != nil {
 			return ierr
 		}
-		r.inited = append(r.inited, l)
+		r.inited = append(r.inited, &ret[i])
 		r.w.mu.Lock()
-		r.w.Fetches = append(r.w.Fetches, r.w.layerNo[l.Hash.String()])
+		r.w.Fetches = append(r.w.Fetches, r.w.layerNo[ds[i].Digest])
 		r.w.mu.Unlock()
 	}
+	wart.CopyLayerPointers(ls, ret)
 	return err
 }
 
